@@ -13,6 +13,7 @@
 #include <stdlib.h>
 
 #include "EbSystemResourceManager.h"
+#include "EbVerifHooks.h"
 #include "EbDefinitions.h"
 #include "EbThreads.h"
 
@@ -89,6 +90,9 @@ static EbErrorType svt_fifo_shutdown(EbFifo *fifo_ptr) {
     // Acquire lockout Mutex
     svt_block_on_mutex(fifo_ptr->lockout_mutex);
     fifo_ptr->quit_signal = EB_TRUE;
+#ifdef SVT_AV1_VERIF
+    SVT_VERIF_EVENT(SVT_VERIF_EV_SRM_SHUTDOWN, fifo_ptr, 0, 0, 0);
+#endif
     // Release Mutex
     svt_release_mutex(fifo_ptr->lockout_mutex);
     //Wake up the waiting process if any
@@ -225,6 +229,10 @@ static EbErrorType svt_muxing_queue_ctor(EbMuxingQueue *queue_ptr, uint32_t obje
                queue_ptr);
     }
 
+#ifdef SVT_AV1_VERIF
+    for (process_index = 0; process_index < queue_ptr->process_total_count; ++process_index)
+        SVT_VERIF_EVENT(SVT_VERIF_EV_SRM_FIFO, queue_ptr, queue_ptr->process_fifo_ptr_array[process_index], process_index, 0);
+#endif
     return return_error;
 }
 
@@ -244,6 +252,9 @@ static EbErrorType svt_muxing_queue_assignation(EbMuxingQueue *queue_ptr) {
 
         // Get the next object
         svt_circular_buffer_pop_front(queue_ptr->object_queue, (void **)&wrapper_ptr);
+#ifdef SVT_AV1_VERIF
+        SVT_VERIF_EVENT(SVT_VERIF_EV_SRM_ASSIGN, process_fifo_ptr, wrapper_ptr, queue_ptr, 0);
+#endif
 
         // Block on the Process Fifo's Mutex
         svt_block_on_mutex(process_fifo_ptr->lockout_mutex);
@@ -366,6 +377,9 @@ EbErrorType svt_object_inc_live_count(EbObjectWrapper *wrapper_ptr, uint32_t inc
     svt_block_on_mutex(wrapper_ptr->system_resource_ptr->empty_queue->lockout_mutex);
 
     wrapper_ptr->live_count += increment_number;
+#ifdef SVT_AV1_VERIF
+    SVT_VERIF_EVENT(SVT_VERIF_EV_SRM_INC_LIVE, wrapper_ptr->system_resource_ptr, wrapper_ptr, wrapper_ptr->live_count, 0);
+#endif
 
     svt_release_mutex(wrapper_ptr->system_resource_ptr->empty_queue->lockout_mutex);
 
@@ -482,6 +496,11 @@ EbErrorType svt_system_resource_ctor(EbSystemResource *resource_ptr, uint32_t ob
         resource_ptr->full_queue = (EbMuxingQueue *)NULL;
     }
 
+#ifdef SVT_AV1_VERIF
+    SVT_VERIF_EVENT(SVT_VERIF_EV_SRM_NEW, resource_ptr, object_total_count, resource_ptr->empty_queue, resource_ptr->full_queue);
+    for (wrapper_index = 0; wrapper_index < resource_ptr->object_total_count; ++wrapper_index)
+        SVT_VERIF_EVENT(SVT_VERIF_EV_SRM_WRAPPER, resource_ptr, resource_ptr->wrapper_ptr_pool[wrapper_index], wrapper_index, 0);
+#endif
     return return_error;
 }
 
@@ -543,6 +562,9 @@ EbErrorType svt_post_full_object(EbObjectWrapper *object_ptr) {
     EbErrorType return_error = EB_ErrorNone;
 
     svt_block_on_mutex(object_ptr->system_resource_ptr->full_queue->lockout_mutex);
+#ifdef SVT_AV1_VERIF
+    SVT_VERIF_EVENT(SVT_VERIF_EV_SRM_POST, object_ptr->system_resource_ptr, object_ptr, object_ptr->system_resource_ptr->full_queue, 0);
+#endif
 
     svt_muxing_queue_object_push_back(object_ptr->system_resource_ptr->full_queue, object_ptr);
 
@@ -578,6 +600,9 @@ EbErrorType svt_release_object(EbObjectWrapper *object_ptr) {
                                            object_ptr);
     }
 
+#ifdef SVT_AV1_VERIF
+    SVT_VERIF_EVENT(SVT_VERIF_EV_SRM_RELEASE, object_ptr->system_resource_ptr, object_ptr, object_ptr->live_count, object_ptr->live_count == EB_ObjectWrapperReleasedValue);
+#endif
     svt_release_mutex(object_ptr->system_resource_ptr->empty_queue->lockout_mutex);
 
     return return_error;
@@ -612,6 +637,9 @@ EbErrorType svt_get_empty_object(EbFifo *empty_fifo_ptr, EbObjectWrapper **wrapp
 
     // Get the empty object
     svt_fifo_pop_front(empty_fifo_ptr, wrapper_dbl_ptr);
+#ifdef SVT_AV1_VERIF
+    SVT_VERIF_EVENT(SVT_VERIF_EV_SRM_GET_EMPTY, empty_fifo_ptr, *wrapper_dbl_ptr, (*wrapper_dbl_ptr)->live_count, 0);
+#endif
 
     // Reset the wrapper's live_count
     (*wrapper_dbl_ptr)->live_count = 0;
@@ -659,6 +687,9 @@ EbErrorType svt_get_full_object(EbFifo *full_fifo_ptr, EbObjectWrapper **wrapper
         return_error     = EB_NoErrorFifoShutdown;
     }
 
+#ifdef SVT_AV1_VERIF
+    SVT_VERIF_EVENT(SVT_VERIF_EV_SRM_GET_FULL, full_fifo_ptr, *wrapper_dbl_ptr, 1, return_error);
+#endif
     // Release Mutex
     svt_release_mutex(full_fifo_ptr->lockout_mutex);
 
@@ -699,6 +730,10 @@ EbErrorType svt_get_full_object_non_blocking(EbFifo *          full_fifo_ptr,
         svt_get_full_object(full_fifo_ptr, wrapper_dbl_ptr);
     else
         *wrapper_dbl_ptr = (EbObjectWrapper *)NULL;
+#ifdef SVT_AV1_VERIF
+    if (fifo_empty != EB_FALSE)
+        SVT_VERIF_EVENT(SVT_VERIF_EV_SRM_GET_FULL, full_fifo_ptr, 0, 0, 0);
+#endif
 
     return return_error;
 }
